@@ -1295,6 +1295,10 @@ def convert(elaboratable, name="top", platform=None, *, ports=None, emit_src=Tru
         for path, member, value in elaboratable.signature.flatten(elaboratable):
             if isinstance(value, _ast.ValueCastable):
                 value = value.as_value()
+            if isinstance(value, _ast.Const):
+                # A member that is tied to a constant (e.g. `ready` of a stream that is always ready)
+                # is a part of the interface, but there is no signal to expose as a port.
+                continue
             if isinstance(value, _ast.Value):
                 if member.flow == wiring.In:
                     dir = _ir.PortDirection.Input
